@@ -4,6 +4,8 @@ package main
 import (
 	"bytes"
 	"encoding/binary"
+	"fmt"
+	"strings"
 
 	"golang.org/x/crypto/salsa20"
 	"golang.org/x/crypto/salsa20/salsa"
@@ -51,6 +53,24 @@ func gen(g *hx.Gen) {
 	n := g.Count(5000, 100000)
 	r := g.R
 	for i := 0; i < n; i++ {
+		if r.Chance(1, 8) {
+			// a session: 2..4 ops on the SAME key / counter / nonce / in / out arrays, contents changed in place
+			k := r.Range(2, 4)
+			var subs []string
+			for j := 0; j < k; j++ {
+				subs = append(subs, genOp(g))
+			}
+			g.Stat("session")
+			g.Emit("sess %s", strings.Join(subs, " ## "))
+		} else {
+			g.Emit("%s", genOp(g))
+		}
+	}
+}
+
+func genOp(g *hx.Gen) string {
+	r := g.R
+	for {
 		switch c := r.Intn(20); {
 		case c < 11:
 			var ctr [16]byte
@@ -61,7 +81,7 @@ func gen(g *hx.Gen) {
 				alias = 1
 				g.Stat("xks-alias")
 			}
-			g.Emit("xks key=%s ctr=%s alias=%d src=%s", hx.Hex(r.Bytes(32)), hx.Hex(ctr[:]), alias, hx.Hex(r.Bytes(pickLen(r))))
+			return fmt.Sprintf("xks key=%s ctr=%s alias=%d src=%s", hx.Hex(r.Bytes(32)), hx.Hex(ctr[:]), alias, hx.Hex(r.Bytes(pickLen(r))))
 		case c < 15:
 			nl := 8
 			if r.Bool() {
@@ -78,14 +98,14 @@ func gen(g *hx.Gen) {
 			if r.Chance(1, 3) {
 				alias = 1
 			}
-			g.Emit("s20 key=%s nonce=%s alias=%d src=%s", hx.Hex(r.Bytes(32)), hx.Hex(r.Bytes(nl)), alias, hx.Hex(r.Bytes(pickLen(r))))
+			return fmt.Sprintf("s20 key=%s nonce=%s alias=%d src=%s", hx.Hex(r.Bytes(32)), hx.Hex(r.Bytes(nl)), alias, hx.Hex(r.Bytes(pickLen(r))))
 		case c < 18:
 			cc := salsa.Sigma[:]
 			if r.Chance(1, 3) {
 				cc = r.Bytes(16)
 				g.Stat("hs-random-constant")
 			}
-			g.Emit("hs key=%s in=%s c=%s", hx.Hex(r.Bytes(32)), hx.Hex(r.Bytes(16)), hx.Hex(cc))
+			return fmt.Sprintf("hs key=%s in=%s c=%s", hx.Hex(r.Bytes(32)), hx.Hex(r.Bytes(16)), hx.Hex(cc))
 		default:
 			in := r.Bytes(64)
 			if r.Chance(1, 10) {
@@ -95,70 +115,182 @@ func gen(g *hx.Gen) {
 			if r.Bool() {
 				alias = 1
 			}
-			g.Emit("c208 alias=%d in=%s", alias, hx.Hex(in))
+			return fmt.Sprintf("c208 alias=%d in=%s", alias, hx.Hex(in))
 		}
 	}
 }
 
-func exec(line string) string {
+// bufs are the caller-side arrays of one op or of one session (then reused, contents changed in place).
+// Everything lives in hx.Arena backing arrays: sentinel slack before and after, spare capacity.
+type bufs struct {
+	a                                 *hx.Arena
+	key, ctr, nonce, in, out          []byte
+	key2, ctr2, in2, out2             []byte // for the portable implementation reached through the hook
+	hsOut, c208in, c208out, hsIn, hsC []byte
+}
+
+const maxIn = 2000
+
+func newBufs() *bufs {
+	a := hx.NewArena()
+	m := func(name string, n int) []byte { return a.InOut(name, make([]byte, n)) }
+	return &bufs{a: a, key: m("key", 32), ctr: m("ctr", 16), nonce: m("nonce", 32), in: m("in", maxIn), out: m("out", maxIn+16),
+		key2: m("key2", 32), ctr2: m("ctr2", 16), in2: m("in2", maxIn), out2: m("out2", maxIn+16),
+		hsOut: m("hsOut", 32), c208in: m("c208in", 64), c208out: m("c208out", 64), hsIn: m("hsIn", 16), hsC: m("hsC", 16)}
+}
+
+type mutSet []string
+
+func (m *mutSet) add(n string) {
+	if n == "" || n == "-" {
+		return
+	}
+	for _, x := range *m {
+		if x == n {
+			return
+		}
+	}
+	*m = append(*m, n)
+}
+func (m mutSet) String() string {
+	if len(m) == 0 {
+		return "-"
+	}
+	return strings.Join(m, ",")
+}
+
+// same reports whether the first len(want) bytes of buf still equal want (an input the callee must not modify)
+func same(m *mutSet, name string, buf, want []byte) {
+	if !bytes.Equal(buf[:len(want)], want) {
+		m.add(name)
+	}
+}
+
+func execOne(line string, b *bufs) string {
 	o := hx.Parse(line)
+	var mut mutSet
+	b.a.Scribble() // all buffers (and their slack) start from garbage: out-parameters are never pre-zeroed
 	switch o.Cmd {
 	case "xks":
-		var key [32]byte
-		var ctr, ctr2 [16]byte
-		copy(key[:], o.Hex("key"))
-		copy(ctr[:], o.Hex("ctr"))
-		ctr2 = ctr
-		src := o.Hex("src")
-		in := append([]byte(nil), src...)
-		out := make([]byte, len(in))
-		if o.Int("alias") == 1 {
-			out = in
+		keyB, ctrB, src := o.Hex("key"), o.Hex("ctr"), o.Hex("src")
+		n := len(src)
+		alias := o.Int("alias") == 1
+		run := func(f func(out, in []byte, c *[16]byte, k *[32]byte), key, ctr, inBuf, outBuf []byte, tag string) string {
+			copy(key, keyB)
+			copy(ctr, ctrB)
+			in := inBuf[:n]
+			copy(in, src)
+			// out is longer than in for every second length: only out[:len(in)] may be written
+			out := outBuf[:n+(n%2)*7]
+			if alias {
+				out = in
+			}
+			before := append([]byte(nil), outBuf...)
+			f(out, in, (*[16]byte)(ctr), (*[32]byte)(key))
+			res := hx.Hex(out[:n]) + " " + hx.Hex(ctr)
+			same(&mut, "key"+tag, key, keyB)
+			same(&mut, "ctr"+tag, ctr, ctrB)
+			if alias {
+				if !bytes.Equal(outBuf, before) {
+					mut.add("out.untouched" + tag)
+				}
+			} else {
+				same(&mut, "in"+tag, in, src)
+				if !bytes.Equal(outBuf[n:], before[n:]) {
+					mut.add("out.rest" + tag)
+				}
+			}
+			return res
 		}
-		salsa.XORKeyStream(out, in, &ctr, &key)
+		res := run(salsa.XORKeyStream, b.key, b.ctr, b.in, b.out, "")
 		// portable implementation in the same binary (hook): must agree byte for byte
-		in2 := append([]byte(nil), src...)
-		out2 := make([]byte, len(in2))
-		if o.Int("alias") == 1 {
-			out2 = in2
+		res2 := run(salsa.VerifGenericXORKeyStream, b.key2, b.ctr2, b.in2, b.out2, ".generic")
+		mut.add(b.a.Check())
+		if res != res2 {
+			res += " generic-differs:" + res2
 		}
-		salsa.VerifGenericXORKeyStream(out2, in2, &ctr2, &key)
-		res := hx.Hex(out) + " " + hx.Hex(ctr[:])
-		if !bytes.Equal(out, out2) || ctr != ctr2 {
-			res += " generic-differs:" + hx.Hex(out2) + ":" + hx.Hex(ctr2[:])
-		}
-		return res
+		return res + " mut=" + mut.String()
 	case "s20":
-		var key [32]byte
-		copy(key[:], o.Hex("key"))
-		in := o.Hex("src")
-		out := make([]byte, len(in))
-		if o.Int("alias") == 1 {
+		keyB, nonceB, src := o.Hex("key"), o.Hex("nonce"), o.Hex("src")
+		n := len(src)
+		copy(b.key, keyB)
+		nonce := b.nonce[:len(nonceB)]
+		copy(nonce, nonceB)
+		in := b.in[:n]
+		copy(in, src)
+		out := b.out[:n+(n%2)*7]
+		alias := o.Int("alias") == 1
+		if alias {
 			out = in
 		}
-		if _, p := hx.PanicText(func() { salsa20.XORKeyStream(out, in, o.Hex("nonce"), &key) }); p {
-			return "panic"
+		before := append([]byte(nil), b.out...)
+		_, p := hx.PanicText(func() { salsa20.XORKeyStream(out, in, nonce, (*[32]byte)(b.key)) })
+		same(&mut, "key", b.key, keyB)
+		same(&mut, "nonce", nonce, nonceB)
+		if !alias {
+			same(&mut, "in", in, src)
+			if !bytes.Equal(b.out[n:], before[n:]) {
+				mut.add("out.rest")
+			}
 		}
-		return hx.Hex(out)
+		mut.add(b.a.Check())
+		if p {
+			return "panic mut=" + mut.String()
+		}
+		return hx.Hex(out[:n]) + " mut=" + mut.String()
 	case "hs":
-		var key, out [32]byte
-		var in, c [16]byte
-		copy(key[:], o.Hex("key"))
-		copy(in[:], o.Hex("in"))
-		copy(c[:], o.Hex("c"))
-		salsa.HSalsa20(&out, &in, &key, &c)
-		return hx.Hex(out[:])
+		keyB, inB, cB := o.Hex("key"), o.Hex("in"), o.Hex("c")
+		copy(b.key, keyB)
+		copy(b.hsIn, inB)
+		copy(b.hsC, cB)
+		salsa.HSalsa20((*[32]byte)(b.hsOut), (*[16]byte)(b.hsIn), (*[32]byte)(b.key), (*[16]byte)(b.hsC))
+		same(&mut, "key", b.key, keyB)
+		same(&mut, "in", b.hsIn, inB)
+		same(&mut, "c", b.hsC, cB)
+		mut.add(b.a.Check())
+		return hx.Hex(b.hsOut) + " mut=" + mut.String()
 	case "c208":
-		var in, out [64]byte
-		copy(in[:], o.Hex("in"))
+		inB := o.Hex("in")
+		copy(b.c208in, inB)
+		var res string
 		if o.Int("alias") == 1 {
-			salsa.Core208(&in, &in)
-			return hx.Hex(in[:])
+			before := append([]byte(nil), b.c208out...)
+			salsa.Core208((*[64]byte)(b.c208in), (*[64]byte)(b.c208in))
+			res = hx.Hex(b.c208in)
+			if !bytes.Equal(b.c208out, before) {
+				mut.add("out.untouched")
+			}
+		} else {
+			salsa.Core208((*[64]byte)(b.c208out), (*[64]byte)(b.c208in))
+			res = hx.Hex(b.c208out)
+			same(&mut, "in", b.c208in, inB)
 		}
-		salsa.Core208(&out, &in)
-		return hx.Hex(out[:])
+		mut.add(b.a.Check())
+		return res + " mut=" + mut.String()
 	}
 	return "bad-op"
+}
+
+var sigma0 = salsa.Sigma
+
+func exec(line string) string {
+	res := exec1(line)
+	if salsa.Sigma != sigma0 { // the exported constant array is shared package state
+		res += " Sigma-modified"
+	}
+	return res
+}
+
+func exec1(line string) string {
+	if strings.HasPrefix(line, "sess ") {
+		b := newBufs()
+		var outs []string
+		for _, sub := range strings.Split(line[5:], " ## ") {
+			outs = append(outs, execOne(sub, b))
+		}
+		return strings.Join(outs, " ## ")
+	}
+	return execOne(line, newBufs())
 }
 
 func main() { hx.Main(hx.Harness{Gen: gen, Exec: exec}) }
